@@ -20,6 +20,12 @@ import pyimpl  # noqa: E402
 
 CHURN = False
 CHURN_COUNT = [0]
+SRC_COUNT = [0]
+
+
+class StrSub(str):
+    """a user's own string type"""
+    __slots__ = ()
 DRIVER = os.path.join(os.path.dirname(os.path.abspath(__file__)), "..", "ocaml", "rundriver")
 
 
@@ -35,10 +41,21 @@ def ends_of(res):
 def make_case(seed, k, mode):
     rng = random.Random(f"{seed}:{k}:{mode}")
     flags = mode == "flags"
-    g = gen.gen_grammar(rng, flags=flags, excl=flags and rng.random() < 0.6, alias=not flags)
+    g = gen.gen_grammar(rng, flags=flags, excl=flags and rng.random() < 0.6, alias=True)
     if flags:
         tg = {}
+        shared = {r["name"] for r in g["rules"] if r.get("alias_of")} | {r["alias_of"] for r in g["rules"] if r.get("alias_of")}
         for r in g["rules"]:
+            if r.get("alias_of"):
+                # the alias shares the definition OBJECT; it may have an exclusion of its own (another one than its source's)
+                others = [x["name"] for x in g["rules"] if x["name"] not in (r["name"], r["alias_of"])]
+                if others and rng.random() < 0.6:
+                    r["excl"] = rng.choice(others)
+                    if not gen.wf(g):
+                        r["excl"] = None
+        for r in g["rules"]:
+            if r["name"] in shared:
+                continue          # a flag set through one name would show through the other (the sharing is the known finding of C10)
             if r["def"][0] == "alt" and rng.random() < 0.6:
                 tg[r["name"]] = [rng.randint(0, 1) for _ in range(rng.randint(0, 3))] + [r["def"][1]]
             elif r["def"][0] != "alt" and rng.random() < 0.2:
@@ -51,13 +68,23 @@ def make_case(seed, k, mode):
         if rng.random() < 0.5 and all(loader_x.text_ok(r["def"]) and loader_x.simplify_for_text(r["def"]) == (["alt", 0] + r["def"][2:] if r["def"][0] == "alt" else r["def"])
                                       for r in g["rules"]):
             lines_ = []
+            late_, early_ = [], {}
             for r in g["rules"]:
                 d = r["def"]
                 if d[0] == "alt" and d[1] and (r["name"] not in tg or tg[r["name"]][-1] != 1):
                     tg[r["name"]] = tg.get(r["name"], []) + [1]
                 if d[0] == "alt" and not d[1] and r["name"] in tg and tg[r["name"]][-1] != 0:
                     tg[r["name"]] = tg[r["name"]] + [0]
-                if d[0] == "alt" and len(d[2]) >= 3 and rng.random() < 0.5:
+                if d[0] == "alt" and len(d[2]) >= 4 and r["name"] not in shared and rng.random() < 0.3:
+                    # the first alternatives, THEN the first-match flag through the public property, THEN "=/" with the rest: the flag
+                    # stays on what it was set on (the old alternation, now the first alternative of a new, unflagged one)
+                    k = rng.randint(2, len(d[2]) - 2)
+                    lines_.append(loader_x.render_rule(rng, r["name"], ["alt", 0, d[2][:k]], False))
+                    late_.append(loader_x.render_rule(rng, r["name"], ["alt", 0, d[2][k:]], False, incr=True))
+                    early_[r["name"]] = [0, 1]
+                    tg.pop(r["name"], None)
+                    r["def"] = ["alt", 0, [["alt", 1, d[2][:k]], ["alt", 0, d[2][k:]]]]
+                elif d[0] == "alt" and len(d[2]) >= 3 and r["name"] not in shared and rng.random() < 0.5:
                     # written as  first alternatives, then "=/" with the rest: the order of alternatives must be the written one
                     k = rng.randint(1, len(d[2]) - 2)
                     head = ["alt", 0, d[2][:k]] if k > 1 else d[2][0]
@@ -67,12 +94,17 @@ def make_case(seed, k, mode):
                 else:
                     lines_.append(loader_x.render_rule(rng, r["name"], ["alt", 0] + d[2:] if d[0] == "alt" else d, False))
             g["via_text"] = "\r\n".join(lines_) + "\r\n"
+            if late_:
+                g["late_text"] = "\r\n".join(late_) + "\r\n"
+                g["early_toggles"] = early_
     if not flags and not any(r.get("alias_of") for r in g["rules"]) and rng.random() < 0.4:
         # plain grammars too are sometimes compiled from ABNF text by the library's own reader (order of alternatives, nesting of
         # groups, bounds as written)
         import loader_x
         if all(loader_x.text_ok(r["def"]) and loader_x.simplify_for_text(r["def"]) == r["def"] for r in g["rules"]):
             g["via_text"] = "\r\n".join(loader_x.render_rule(rng, r["name"], r["def"], False) for r in g["rules"]) + "\r\n"
+    if not g.get("via_text") and rng.random() < 0.4:
+        g["define_order"] = rng.sample([r["name"] for r in g["rules"]], len(g["rules"]))
     inputs = gen.gen_inputs(rng, g)
     return {"seed": seed, "index": k, "mode": mode, "grammar": g, "inputs": inputs}
 
@@ -127,6 +159,34 @@ def fixed_cases():
                         ("f", ["cat", [["rep", 0, None, L(0, "a")], ["opt", L(0, "b")]]], None),
                         ("g", ["cat", [["rep", 0, None, L(0, "a")], ["rep", 0, 1, L(0, "a")], ["opt", L(0, "b")]]], None)],
          ["a" * 254, "a" * 256, "a" * 257, "a" * 258, "a" * 259, "a" * 300, "a" * 301, "a" * 258 + "b", "a" * 257 + "b"])
+    # wide alternations (8 or more alternatives) made of string literals only, case-sensitive and case-insensitive ones mixed, some
+    # spelled alike up to case; and a first-match alternation that lists rules and ranges BEFORE quoted strings
+    lits = [L(1, "m"), L(0, "M"), L(0, "mm"), L(1, "K"), L(0, "k"), L(0, "g"), L(1, "Mi"), L(0, "mi"), L(0, "t"), L(1, "T"), L(0, "p")]
+    case("wide-literal-alternation", [("u", ["alt", 0, lits], None), ("size", ["cat", [["rep", 1, None, ["range", 0x30, 0x39]], ["ref", "u"], ["opt", L(0, "b")]]], None)],
+         ["M", "m", "MM", "Mi", "MI", "k", "K", "T", "t", "5MB", "5mb", "12Mi", "7K", "7kb", "x", ""], alpha="mkgtpb5")
+    tok = [["ref", "number"], ["ref", "name"], L(0, "=="), L(0, "="), L(0, "<="), L(0, "<"), L(0, ">="), L(0, ">"), L(0, "if"), L(0, "in"), L(0, "i")]
+    out.append({"seed": 0, "index": "wide-first-match-alternation", "mode": "fixed",
+                "grammar": {"rules": [{"name": "token", "def": ["alt", 1, tok], "excl": None},
+                                      {"name": "number", "def": ["rep", 1, None, ["range", 0x30, 0x39]], "excl": None},
+                                      {"name": "name", "def": ["rep", 1, None, ["range", 0x61, 0x7A]], "excl": None},
+                                      {"name": "toks", "def": ["rep", 1, None, ["ref", "token"]], "excl": None}],
+                            "alpha": list("in=<>1"), "toggles": {"token": [0, 1]}},
+                "inputs": ["in", "if", "i", "==", "=", "<=", "<", "12", "in12", "i=1", "<=>", ""]})
+    # recursion through an option / a bounded repetition (the same Repetition object is re-entered while it is running), asked at
+    # inner offsets first
+    case("recursion-through-option", [("s", ["cat", [L(0, "("), ["opt", ["ref", "s"]], L(0, ")"), ["opt", ["ref", "s"]]]], None),
+                                      ("b", ["cat", [L(0, "["), ["rep", 0, 2, ["ref", "b"]], L(0, "]")]], None)],
+         ["((())())", "(()())", "()", "(()", "[[[]][]]", "[[][][]]", "[[[][]][[]]]", "[]"], alpha="()[]")
+    # ONE terminal longer than 65 535 characters
+    case("huge-literal", [("big", L(1, "ab" * 33000), None), ("two", ["cat", [["ref", "big"], L(0, "c")]], None)],
+         ["ab" * 33000, "ab" * 33000 + "c", "ab" * 32999 + "aa"], alpha="abc")
+    # more than a thousand rules in one grammar, one of them with a very long name; an alternation over all of them
+    many = [(f"m{k}", ["range", 0x100 + k, 0x100 + k], None) for k in range(1100)]
+    longname = "L" + "ong-name-" * 40 + "x"
+    many.append((longname, ["cat", [L(0, "z"), ["ref", "m7"]]], None))
+    many.append(("top", ["alt", 0, [["ref", f"m{k}"] for k in range(1100)] + [["ref", longname]]], None))
+    many.append(("seq", ["rep", 0, None, ["ref", "top"]], None))
+    case("many-rules", many, [chr(0x100), chr(0x100 + 1099), chr(0x100 + 1100), "z" + chr(0x107), chr(0x105) + chr(0x54b) + "z" + chr(0x107), "zz", ""], alpha="z")
     # a huge explicit upper bound over an element that can match the empty string: the loop must stop when a round adds no new
     # end, not run to the bound (termination within a work bound, whatever the bound)
     case("huge-bound-nullable", [("a", ["rep", 0, 1000000, ["opt", L(0, "a")]], None),
@@ -247,9 +307,14 @@ def run_cases(cases, want_parse=True):
                 s_live = "".join([ch for ch in s])
             else:
                 s_live = s
+            SRC_COUNT[0] += 1
+            if SRC_COUNT[0] % 7 == 0:
+                s_live = StrSub(s_live)          # a str SUBCLASS instance is a perfectly good source
             for n in names:
                 rid = d.rids[id(objs[n])]
-                offsets = range(len(s) + 1) if len(s) <= 40 else sorted({0, 1, 2, len(s) // 2, len(s) - 1, len(s)})
+                offsets = list(range(len(s) + 1)) if len(s) <= 40 else sorted({0, 1, 2, len(s) // 2, len(s) - 1, len(s)})
+                if SRC_COUNT[0] % 2 == 1:
+                    offsets = offsets[::-1]          # inner offsets first: what was computed for a suffix must not disturb the whole
                 for i in offsets:
                     try:
                         with pyimpl.time_limit((0.5 if len(s) <= 40 else 5.0) if c.get("mode") != "fixed" else 30.0):
@@ -398,7 +463,7 @@ def main():
         fixed = [] if a.fixed == "none" else fixed_cases()
         if a.fixed == "only":
             # three jobs share the hand-picked cases: the two long-input cases get a job each (--seed 0, 1), the rest --seed 2
-            part = {"big-bounds": 0, "deep-backtrack": 1, "huge-bound-nullable": 1}
+            part = {"big-bounds": 0, "deep-backtrack": 1, "huge-bound-nullable": 1, "many-rules": 1, "huge-literal": 1}
             fixed = [c for c in fixed if part.get(c["index"], 2) == a.seed % 3]
         cases = fixed + ([] if a.fixed == "only" else [make_case(a.seed, k, a.mode) for k in range(a.n)])
     records, stats = run_cases(cases)
